@@ -526,7 +526,7 @@ def const_walk(cfg: CFG, starts: Iterable[Node], env0: dict, stop_nodes: Iterabl
 def requires_edge(cfg: CFG, target: Node, test: Node, label: str, fold=None) -> bool:
     """Reaching *target* from the entry requires taking the *label* edge of *test*, up to constant
     propagation of locals (a `x = None` ... `if x is not None` pair prunes the infeasible path)."""
-    edges = [(test, m, l) for m, l in test.succ if l == label]
+    edges = cfg.test_edges(test, label)
     if target.id not in cfg.reachable([cfg.entry], block_edges=edges, follow_exc=True):
         return True
     try:
